@@ -66,6 +66,11 @@ pub enum CaseDesc {
     },
     /// chain of `depth` nested Folders (XML recursion depth)
     Chain { depth: usize },
+    /// scale in one dimension: "classes" (n distinct unknown classes), "props" (one instance with n
+    /// unknown properties), "sstr" (n distinct SharedStrings, each used twice), "instances" (n Folders
+    /// in a 3-level tree: referents beyond 2^16), "oddnames" (unknown classes / properties with
+    /// non-ASCII, very long and empty names; n ignored)
+    Many { kind: String, n: usize },
     /// `n` same-class children of one Folder (wide columns, long referent arrays): each carries an
     /// Int32, a String, a Ref to another sibling and one of three SharedStrings
     Wide { n: usize },
@@ -204,6 +209,49 @@ pub fn build_plan(desc: &CaseDesc, codec: Codec) -> Plan {
                     Some(v) => RootSel::Nodes(v.clone()),
                 },
             }
+        }
+        CaseDesc::Many { kind, n } => {
+            let mut nodes = vec![PNode { class: "Folder".to_owned(), name: "top".to_owned(), parent: None, props: vec![] }];
+            match kind.as_str() {
+                "classes" => {
+                    for i in 0..*n {
+                        nodes.push(PNode { class: format!("ZzClass{:04}", (i * 7919) % 10000), name: format!("c{}", i), parent: Some(0), props: vec![("I".to_owned(), PVal::V(Variant::Int32(i as i32)))] });
+                    }
+                }
+                "props" => {
+                    let props = (0..*n).map(|i| (format!("ZzP{:04}", (i * 7919) % 10000), if i % 2 == 0 { PVal::V(Variant::Int32(i as i32 - 7)) } else { PVal::V(Variant::String(format!("v{}", i))) })).collect();
+                    nodes.push(PNode { class: "ZzUnknown".to_owned(), name: "many".to_owned(), parent: Some(0), props });
+                }
+                "sstr" => {
+                    for i in 0..(*n * 2) {
+                        nodes.push(PNode { class: "ZzUnknown".to_owned(), name: format!("s{}", i), parent: Some(0), props: vec![("Sh".to_owned(), PVal::Shared(format!("shared string number {}", (i * 31) % *n).into_bytes()))] });
+                    }
+                }
+                "instances" => {
+                    // top -> 256 groups -> leaves
+                    let groups = 256usize;
+                    for g in 0..groups {
+                        nodes.push(PNode { class: "Folder".to_owned(), name: format!("g{}", g), parent: Some(0), props: vec![] });
+                    }
+                    for i in 0..*n {
+                        nodes.push(PNode { class: "ZzUnknown".to_owned(), name: format!("l{}", i), parent: Some(1 + i % groups), props: vec![("I".to_owned(), PVal::V(Variant::Int32(i as i32)))] });
+                    }
+                    // keep pre-order = index order: sort children after their group
+                    let mut ordered = nodes[..1 + groups].to_vec();
+                    let mut leaves: Vec<PNode> = nodes[1 + groups..].to_vec();
+                    leaves.sort_by_key(|l| l.parent);
+                    // parents precede children; sibling order is index order, so this is a valid plan
+                    ordered.extend(leaves);
+                    nodes = ordered;
+                }
+                _ => {
+                    let long = "LongName".repeat(40);
+                    for (i, (class, prop)) in [("Zz\u{e9}\u{2603}Class", "pr\u{f6}p \u{2603}"), (long.as_str(), long.as_str()), ("ZzEmptyProp", ""), ("Zz<&>\"'", "a<&>\"'b"), ("Zz Spaced Class", " lead and trail ")].iter().enumerate() {
+                        nodes.push(PNode { class: (*class).to_owned(), name: format!("odd{}", i), parent: Some(0), props: vec![((*prop).to_owned(), PVal::V(Variant::Int32(i as i32))), ("Other".to_owned(), PVal::V(Variant::String((*prop).to_owned())))] });
+                    }
+                }
+            }
+            Plan { nodes, roots: RootSel::Nodes(vec![0]) }
         }
         CaseDesc::Wide { n } => {
             let mut nodes = vec![PNode { class: "Folder".to_owned(), name: "top".to_owned(), parent: None, props: vec![] }];
@@ -954,6 +1002,7 @@ pub fn label_of(desc: &CaseDesc) -> String {
         CaseDesc::Topo { feature, .. } => format!("topo|{:?}", feature).chars().take(40).collect(),
         CaseDesc::Chain { depth } => format!("chain|{}", depth),
         CaseDesc::Wide { n } => format!("wide|{}", n),
+        CaseDesc::Many { kind, n } => format!("many|{}|{}", kind, n),
         CaseDesc::Name { label } => format!("name|{}", label),
     }
 }
@@ -977,6 +1026,7 @@ pub fn class_of(desc: &CaseDesc) -> String {
         }
         CaseDesc::Chain { .. } => "chain".to_owned(),
         CaseDesc::Wide { .. } => "wide".to_owned(),
+        CaseDesc::Many { kind, .. } => format!("many:{}", kind),
         CaseDesc::Name { .. } => "name".to_owned(),
     }
 }
